@@ -13,9 +13,14 @@
 #define MAXT 16
 static Query *pool; static Result *ref; static int npool_q, ncalls, control;
 typedef struct { int t; uint64_t seed; int *idx; Result *res; } Work;
+/* positive control of the instrument: in "control" mode every thread also increments this plain variable without synchronisation; the race detector
+ * MUST report it (a report that does not depend on any property of the library, so that a library which closes its documented exception with a lock
+ * does not break the control) */
+long ctl_probe;
 static void *worker(void *arg) {
   Work *w = arg; uint64_t s = w->seed;
   for (int i = 0; i < ncalls; i++) {
+    if (control) ctl_probe++;
     s = s * 6364136223846793005ULL + 1442695040888963407ULL; int k = (int)((s >> 33) % (uint64_t)npool_q);
     w->idx[i] = k;
     if (control && w->t == 0) {            /* the documented exception: modification of a shared collection without a lock */
